@@ -20,10 +20,14 @@
        ('?',)                            an alternative whose branch decision is unknown (a phi inside an expression)
 
    `x.map_or(Ok(d), |v| f(v))`, `match x { None => Ok(d), Some(v) => f(v) }`, `let Some(v) = x else { return Ok(d) }; f(v)`
-   all give the same two cases.
+   all give the same two cases; so does `x.map(f).transpose().map(|o| o.unwrap_or_else(|| d))`: a closure applied to a
+   payload that is itself decided (`Ok(None)`, `Ok(Some(v))`) is entered with that literal, decisions on it are resolved
+   (`shape_value`, `reduce_literals`), and `unwrap_or` / `unwrap_or_else` / calls through closure / fn-pointer values are cases too.
 
 2. `Normal` — normal form of a value with workspace helpers inlined and success payloads in `mk_unwrap` form (to a fixed
-   point), remembering with which arguments each helper was entered.
+   point), remembering with which arguments each helper was entered.  Calls through a closure / fn-pointer value whose
+   target is known are entered; a variable threaded through a loop over a literal table (`unrolled_locals`) and
+   `fold` / `try_fold` over such a table have the value of the written-out sequence of steps.
 
 3. `sequence_of` — how a list value is built from another list: an order-keeping iterator pipeline with exactly one `map`,
    or a fresh Vec that receives exactly one `push` on every way round a `for` loop (one or several push sites) which only
@@ -48,6 +52,7 @@ _COMB = re.compile(r'^std::(result::Result|option::Option)::<.*>::(\w+)$')
 # adapters whose result is Some/Ok exactly when their receiver is
 KEEP_POLARITY = {'map', 'map_err', 'ok_or', 'ok_or_else', 'inspect', 'inspect_err', 'cloned', 'copied', 'as_ref', 'as_mut',
                  'as_deref', 'as_deref_mut', 'ok', 'err_into'}
+CALL_TRAITS = ('std::ops::Fn::call', 'std::ops::FnMut::call_mut', 'std::ops::FnOnce::call_once')
 PAYLOAD_SAME = {'cloned', 'copied', 'as_ref', 'as_mut', 'as_deref', 'as_deref_mut', 'inspect', 'inspect_err'}
 
 
@@ -109,6 +114,33 @@ def shape_sig(sh):
     return '%s(%s)' % (sh[0], shape_sig(sh[1]))
 
 
+def shape_value(sh):
+    """the value a fully decided shape stands for (`Ok(Some(x))` as nested Option / Result aggregates), so that a closure can
+    be applied to a payload that is itself an Option / Result (`r.map(|o| o.unwrap_or_else(..))` on `Ok(None)`); None
+    when the shape carries an error conversion"""
+    if sh[0] == 'val':
+        return sh[1]
+    if sh[0] == 'None':
+        return ('agg', OPTION, 'None', ())
+    if sh[0] in ('Some', 'Ok', 'Err'):
+        inner = shape_value(sh[1])
+        if inner is None:
+            return None
+        return ('agg', OPTION if sh[0] == 'Some' else RESULT, sh[0], (('0', inner),))
+    return None
+
+
+def reduce_literals(v):
+    """`unwrap(Some(x))` / `unwrap(Ok(x))` -> x, anywhere in v (a closure body instantiated with a decided payload)"""
+    if not isinstance(v, tuple) or not v or v[0] in ('const', 'param', 'fnitem', 'constitem', 'unknown', 'closure_env', 'upvar'):
+        return v
+    out = tuple(reduce_literals(x) if isinstance(x, tuple) else x for x in v)
+    if out[0] == 'unwrap' and len(out) == 2 and isinstance(out[1], tuple) and out[1] and out[1][0] == 'agg' and out[1][1] in (OPTION, RESULT) and \
+            out[1][2] in ('Some', 'Ok') and len(out[1][3]) == 1:
+        return out[1][3][0][1]
+    return out if out != v else v
+
+
 def mentions(sh, cv):
     """some leaf of the shape contains a sub-value whose canonical form is cv"""
     return any(canon(x) == cv for leaf in shape_vals(sh) for x in walk(leaf))
@@ -136,6 +168,10 @@ class Cases:
 
     def is_atom(self, subj, names):
         pol = polarity(names)
+        lit = core(subj) if pol is not None else peel(subj)
+        if lit[0] == 'agg' and lit[1] in (OPTION, RESULT) and lit[2] in _POSN | _NEGN:
+            # a decision on a literal `Some(..)` / `None` / `Ok(..)` / `Err(..)` (a closure applied to a decided payload)
+            return ('true',) if lit[2] in names else ('false',)
         if pol is not None:
             return ('is', canon(core(subj)), pol)
         return ('is', canon(peel(subj)), frozenset(names))
@@ -149,10 +185,9 @@ class Cases:
             return [] if v[1] == oc else [('false',)]
         if v[0] == 'call' and v[2] and depth < 6:
             fam, meth = comb(v)
-            if meth in ('is_none', 'is_err'):
-                return [('is', canon(core(v[2][0])), NEG if oc else POS)]
-            if meth in ('is_some', 'is_ok'):
-                return [('is', canon(core(v[2][0])), POS if oc else NEG)]
+            if meth in ('is_none', 'is_err', 'is_some', 'is_ok'):
+                a = self.is_atom(v[2][0], (_NEGN if oc else _POSN) if meth in ('is_none', 'is_err') else (_POSN if oc else _NEGN))
+                return [] if a == ('true',) else [a]
             if meth in ('is_some_and', 'is_ok_and') and len(v[2]) == 2:
                 pos = [('is', canon(core(v[2][0])), POS)] + self.bool_atoms(self.apply(v[2][1], (self.sl.mk_unwrap(v[2][0]),)), True, depth + 1)
                 return pos if oc else [('nall', frozenset(pos))]
@@ -262,8 +297,14 @@ class Cases:
                 atoms.extend(self.cond_atoms(cd, m))
             for diff in extra:
                 na = [a for cd in diff for a in self.cond_atoms(cd, m)]
-                atoms.append(('nall', frozenset(na)))
-            vv = subst(v, m, self.sl) if m else v
+                if ('false',) in na:
+                    continue        # (one of them is known not to hold)
+                na = [a for a in na if a != ('true',)]
+                atoms.append(('nall', frozenset(na)) if na else ('false',))
+            if ('false',) in atoms:
+                continue            # (this row is not reached: a decision on a literal went the other way)
+            atoms = [a for a in atoms if a != ('true',)]
+            vv = reduce_literals(subst(v, m, self.sl)) if m else v
             for gs, sh in self.value_cases(vv, m, stack + (g.path,)):
                 out.append((self._uniq(tuple(atoms) + tuple(gs)), sh))
         return out
@@ -341,6 +382,9 @@ class Cases:
                 for g, sh in self.value_cases(x, m, stack, depth + 1):
                     out.append(((('?',),) + tuple(g), sh))
             return out
+        if k == 'icall' and len(v) > 2 and isinstance(v[1], tuple) and peel(v[1])[0] in ('closure', 'fnitem'):
+            # a call through a function pointer / closure variable whose target is known
+            return self.call_cases(v[1], list(v[2]), m, stack)
         if k != 'call':
             return [((), ('val', v))]
         name, args = v[1], v[2]
@@ -352,6 +396,9 @@ class Cases:
                 elif sh[0] == 'None':
                     out.append((g, sh))
             return out
+        if name in CALL_TRAITS and len(args) == 2 and peel(args[0])[0] in ('closure', 'fnitem') and peel(args[1])[0] == 'tuple':
+            # `f(x)` on a closure value held in a variable / table
+            return self.call_cases(args[0], list(peel(args[1])[1]), m, stack)
         g = self.prog.fns.get(name)
         if self.descend(g) and g.path not in stack:
             m2 = dict(m)
@@ -365,7 +412,8 @@ class Cases:
         posn = 'Some' if fam == 'O' else 'Ok'
         recv = lambda: self.value_cases(args[0], m, stack, depth + 1)
         is_pos = lambda sh: sh[0] in ('Ok', 'Some')
-        val_of = lambda sh: sh[1][1] if sh[1][0] == 'val' else None
+        # (a payload that is itself decided -- `Ok(Some(x))`, `Ok(None)` -- is handed on as the literal it is)
+        val_of = lambda sh: shape_value(sh[1])
         out = []
         if meth in PAYLOAD_SAME:
             return recv()
@@ -419,6 +467,21 @@ class Cases:
                 else:
                     for g2, s2 in self.call_cases(args[1], [], m, stack):
                         out.append((tuple(gd) + tuple(g2), ('Err', s2)))
+            return out
+        if meth in ('unwrap_or', 'unwrap_or_else', 'unwrap_or_default'):
+            # the payload, or the fallback: `opt.map_or(d, f)` == `opt.map(f).unwrap_or(d)`, `r.map(|o| o.unwrap_or_else(|| d))`
+            for gd, sh in self.split(recv(), fam):
+                if is_pos(sh):
+                    out.append((gd, sh[1]))
+                elif meth == 'unwrap_or' and len(args) == 2:
+                    for g2, s2 in self.value_cases(args[1], m, stack, depth + 1):
+                        out.append((tuple(gd) + tuple(g2), s2))
+                elif meth == 'unwrap_or_else' and len(args) == 2:
+                    e = [val_of(sh)] if sh[0] == 'Err' and val_of(sh) is not None else ([('unknown', 'error')] if fam == 'R' else [])
+                    for g2, s2 in self.call_cases(args[1], e, m, stack):
+                        out.append((tuple(gd) + tuple(g2), s2))
+                else:
+                    out.append((gd, ('val', ('unknown', 'default'))))
             return out
         if meth == 'ok' and fam == 'R':
             for gd, sh in self.split(recv(), 'R'):
@@ -474,15 +537,75 @@ class Normal:
     def __init__(self, prog, sl, keep=()):
         self.prog, self.sl, self.keep = prog, sl, set(keep)
         self.entered = {}
+        self._ret = {}
+
+    def returned(self, g):
+        """what g returns; a variable threaded through a loop over a literal table (`for p in [p1, p2] { cur = p(&cur)?; }`)
+        has the value the unrolled loop leaves in it (unrolled_locals), which the value algebra alone reads as a cycle"""
+        if g.path not in self._ret:
+            seeds = unrolled_locals(self.prog, self.sl, g)
+            if seeds:
+                slx = Slicer(self.prog)
+                slx._cache.update(seeds)
+                self._ret[g.path] = slx.local(g, 0)
+            else:
+                self._ret[g.path] = self.sl.local(g, 0)
+        return self._ret[g.path]
+
+    def inline(self, v):
+        """Slicer.inline_call on `returned`"""
+        g = self.prog.fns.get(v[1])
+        if g is None or g.kind == 'Closure':
+            return None
+        return subst(self.returned(g), {(g.path, i): a for i, a in enumerate(v[2]) if i < g.argc}, self.sl)
+
+    def fold(self, out):
+        """`table.into_iter().try_fold(init, |acc, x| f(acc, x))` / `.fold(..)` over a literal table, unrolled: the same
+        value as the loop `let mut acc = init; for x in table { acc = f(acc, x)?; }` (unrolled_locals)"""
+        it, init, f = out[2]
+        names, src = adapters(it)
+        al = iters.alts(self.sl, it)
+        if not (set(names) <= UNROLL_KEEPS and al and len(al) <= 12 and all(fo is None and not fl for e, fo, fl in al)):
+            return None
+        acc = init
+        for e, fo, fl in al:
+            r = self.sl.apply_closure(f, (acc, e))
+            if r is None:
+                return None
+            acc = self.nf(r if out[1] == IT + 'fold' else self.sl.mk_unwrap(r, 1), 4)
+        if out[1] == IT + 'fold':
+            return acc
+        site = out[3] if len(out) > 3 else None
+        c = self.prog.fns[site[0]].call_at(site[1]) if site and site[0] in self.prog.fns else None
+        opt = c is not None and (c.dty or '').startswith(('std::option::Option<', 'core::option::Option<'))
+        return ('agg', OPTION if opt else RESULT, 'Some' if opt else 'Ok', (('0', acc),))
 
     def nf(self, v, depth=8):
         if not isinstance(v, tuple) or not v or depth < 0 or v[0] in _LEAF:
             return v
         out = tuple(self.nf(x, depth) if isinstance(x, tuple) else x for x in v)
+        if out[0] == 'call' and len(out) > 2 and out[1] in CALL_TRAITS and len(out[2]) == 2 and peel(out[2][0])[0] in ('closure', 'fnitem') and \
+                peel(out[2][1])[0] == 'tuple':
+            # `f(x)` on a closure value held in a variable / taken from a table
+            r = self.sl.apply_closure(peel(out[2][0]), tuple(peel(out[2][1])[1]))
+            if r is not None:
+                return self.nf(r, depth - 1)
+        if out[0] == 'icall' and len(out) > 2 and isinstance(out[1], tuple) and peel(out[1])[0] in ('closure', 'fnitem'):
+            # a call through a function pointer / closure variable whose target is known (an entry of a table of phases)
+            f = peel(out[1])
+            if f[0] == 'fnitem':
+                return self.nf(('call', f[1], tuple(out[2]), out[3] if len(out) > 3 else None), depth - 1)
+            r = self.sl.apply_closure(f, tuple(out[2]))
+            if r is not None:
+                return self.nf(r, depth - 1)
+        if out[0] == 'call' and len(out) > 2 and out[1] in (IT + 'fold', IT + 'try_fold') and len(out[2]) == 3 and peel(out[2][2])[0] in ('closure', 'fnitem'):
+            r = self.fold(out)
+            if r is not None:
+                return self.nf(r, depth - 1)
         if out[0] == 'call' and len(out) > 2 and out[1] not in self.keep:
             g = self.prog.fns.get(out[1])
             if g is not None and g.kind != 'Closure':
-                iv = self.sl.inline_call(out)
+                iv = self.inline(out)
                 if iv is not None and iv != out:
                     m = {(g.path, i): a for i, a in enumerate(out[2]) if i < g.argc}
                     if m not in self.entered.setdefault(g.path, []):
@@ -507,7 +630,7 @@ class Normal:
 
     def payload(self, f):
         """success payload of f in normal form"""
-        return self.nf(self.sl.mk_unwrap(self.sl.local(f, 0), 1))
+        return self.nf(self.sl.mk_unwrap(self.returned(f), 1))
 
     def context_of(self, g):
         """the one argument binding with which g was entered, or None"""
@@ -673,6 +796,91 @@ def sequence_of(prog, sl, f, v, N=None):
     return Seq(None, names, src, None, None, why='adapters %s' % [n.split('::')[-1] for n in names])
 
 
+# adapters between a literal table and its consumer that neither drop nor reorder elements
+UNROLL_KEEPS = {'core::slice::<impl [T]>::iter', 'std::iter::IntoIterator::into_iter', IT + 'copied', IT + 'cloned', IT + 'by_ref', IT + 'fuse',
+                IT + 'peekable'}
+
+
+def unrolled_locals(prog, sl, f):
+    """{(f.path, local): value}: variables that a loop of f over a LITERAL table threads through its iterations
+    (`let mut cur = init; for step in [s1, s2] { cur = step(&cur)?; }`), with the value they have when the loop is left
+    through the exhaustion of the iterator -- what `[s1, s2].into_iter().try_fold(init, |cur, step| step(&cur))` and the
+    written-out `s2(&s1(&init)?)?` compute.  Decided only when nothing else is carried from one iteration to the next:
+    the variable is assigned as a whole at most once per iteration (an iteration that does not assign keeps the value), is
+    never borrowed mutably or assigned in part, the iterator is advanced by the loop alone and visits the table in order."""
+    out = {}
+    if not any(c.decl == 'std::iter::Iterator::next' for c in f.calls):
+        return out
+    loops = find_loops(f, sl)
+    for L in loops:
+        if L.collection is None or getattr(L, 'exhaust', None) is None or not L.next_call.dest or len(L.next_call.dest) != 1:
+            continue
+        if any(X.header != L.header and (L.header in X.body or X.header in L.body) for X in loops):
+            continue
+        names, src = adapters(L.collection)
+        al = iters.alts(sl, L.collection)
+        if not (set(names) <= UNROLL_KEEPS and al and len(al) <= 12 and all(fo is None and not fl for e, fo, fl in al)):
+            continue
+        # a result other than an error is produced only after the iterator is exhausted (no `break` / early `return Ok(..)`)
+        early = set()
+        for b in L.body:
+            for t in f.succs(b):
+                if t not in L.body and (b, t) != tuple(L.exhaust):
+                    early |= f.reachable(t)
+        if any(site.bb in early for site in success_sites(f)):
+            continue
+        cands = []
+        normal = f.reachable(0)
+        for l in range(1, len(f.locals)):
+            ds = [d for d in f.whole_defs(l) if d[1] in normal]
+            if any(d[1] in L.body for d in ds) and any(d[1] not in L.body for d in ds) and (f.local_ty(l) or '') != 'bool':
+                cands.append(l)
+        if len(cands) != 1:
+            continue
+        a = cands[0]
+        borrows = mut_borrows(f)
+        its = {pl[0] for pl, c in borrows if c is not None and c.bb == L.next_call.bb}
+        if f.partial_defs(a) or any(pl[0] == a for pl, c in borrows) or not its or \
+                any(pl[0] in its and (c is None or c.bb != L.next_call.bb) for pl, c in borrows):
+            continue
+        ins = [d for d in f.whole_defs(a) if d[1] in L.body]
+        outs = [d for d in f.whole_defs(a) if d[1] not in L.body and d[1] in normal]
+        if not all(f.dominates(d[1], L.header) for d in outs) or len({d[1] for d in ins}) != len(ins):
+            continue
+        lo, hi = push_counts(f, L, {d[1] for d in ins})
+        if any(hi.get(l, 0) > 1 for l in L.latches):
+            continue
+        keeps = any(lo.get(l, 0) < 1 for l in L.latches)
+        acc = _phi_of([sl._def_value(f, d, set(), 0) for d in outs])
+        if _has_cycle(acc):
+            continue
+        nd = L.next_call.dest[0]
+        for e, fo, fl in al:
+            slx = Slicer(prog)
+            slx._cache[(f.path, a)] = acc
+            slx._cache[(f.path, nd)] = ('agg', OPTION, 'Some', (('0', e),))
+            acc = _phi_of([slx._def_value(f, d, set(), 0) for d in ins] + ([acc] if keeps else []))
+            if _has_cycle(acc):
+                acc = None
+                break
+        if acc is not None:
+            out[(f.path, a)] = acc
+    return out
+
+
+def _phi_of(vals):
+    flat = []
+    for v in vals:
+        for x in (v[1] if v[0] == 'phi' else (v,)):
+            if x not in flat:
+                flat.append(x)
+    return flat[0] if len(flat) == 1 else ('phi', tuple(flat))
+
+
+def _has_cycle(v):
+    return any(isinstance(x, tuple) and len(x) > 1 and x[0] == 'unknown' and x[1] == 'cycle' for x in walk(v))
+
+
 def push_counts(g, L, push_bbs):
     """(lo, hi): least / greatest number of push sites passed on the ways from the head of loop L to each block of its body
     (counting the block itself), not going round the loop"""
@@ -831,7 +1039,7 @@ def elem_cases(C, seq):
             if sh[0] == 'Err' and _tried(tr(v)) is not None and _tried(tr(v)) in propagated:
                 continue
             out.append((C._uniq(tuple(atoms) + tuple(gs)), sh))
-    return [(atoms, sh) for atoms, sh in expand_atoms(C, out) if feasible(atoms)]
+    return [(tuple(a for a in atoms if a != ('true',)), sh) for atoms, sh in expand_atoms(C, out) if feasible(atoms)]
 
 
 def feasible(atoms):
